@@ -96,12 +96,14 @@ package sortio
 
 // The control protocol of the reduce reader (row contents are abstracted; they are covered by the bounded reduce-merge
 // run): each output row gathers at least one buffer, one heap pop per gathered buffer; afterwards EVERY gathered
-// buffer is advanced and then either pushed back or dropped — dropped only when its refill reported end-of-stream;
+// buffer is advanced and then pushed back exactly when it still holds unread rows (rows left, or a successful refill) and dropped only when its refill reported end-of-stream; the heap holds pairwise distinct buffers, each with unread rows;
 // the requeue loop is never left early except by returning a read error, which is recorded; end-of-stream is reported
 // exactly when the heap has been drained; errors are sticky.
 //@ spec func rbufOK(b *FrameBuffer) bool = b != nil && b.Reader != nil
+//@ spec func rbufDyn(b *FrameBuffer) bool = 0 <= b.Index && b.Index < b.Len
+//@ spec func rheapSet(h *FrameBufferHeap) bool = forall(a, 0, len(h.Buffers), forall(b, 0, len(h.Buffers), implies(a != b, h.Buffers[a] != h.Buffers[b])))
 //@ func sortio.(*reader).Read (ctx, out) (n, err)
-//@   requires r != nil && defaultChunksize >= 1 && forall(i, 0, len(r.readers), r.readers[i] != nil) && implies(r.heap != nil, forall(k, 0, len(r.heap.Buffers), rbufOK(r.heap.Buffers[k])))
+//@   requires r != nil && defaultChunksize >= 1 && forall(i, 0, len(r.readers), r.readers[i] != nil) && implies(r.heap != nil, forall(k, 0, len(r.heap.Buffers), rbufOK(r.heap.Buffers[k]) && rbufDyn(r.heap.Buffers[k])) && rheapSet(r.heap))
 //@   may_panic
 //@   flag abstract_calls frame.Make, frame.Frame.Slice, frame.Frame.Index, frame.Copy, frame.Frame.NumOut, frame.Frame.Len
 //@   flag abstract_total frame.Frame.Less
@@ -110,20 +112,23 @@ package sortio
 //@   ensures  error-is-recorded: implies(err != nil && err != sliceio.EOF, r.err == err)
 //@   ensures  eof-exactly-when-drained: implies(old(r.err) == nil && (err == nil || err == sliceio.EOF), r.heap != nil && (err == sliceio.EOF) == (len(r.heap.Buffers) == 0))
 //@   modifies unknown
-//@   loop 1 invariant r.heap != nil && r.err == nil && forall(k, 0, len(r.heap.Buffers), rbufOK(r.heap.Buffers[k]))
-//@   loop 2 invariant r.heap != nil && r.err == nil && forall(k, 0, len(r.heap.Buffers), rbufOK(r.heap.Buffers[k]))
+//@   loop 1 invariant r.heap != nil && r.err == nil && forall(k, 0, len(r.heap.Buffers), rbufOK(r.heap.Buffers[k]) && rbufDyn(r.heap.Buffers[k])) && rheapSet(r.heap) && forall(k, 0, len(r.heap.Buffers), fresh(r.heap.Buffers[k]))
+//@   loop 2 invariant r.heap != nil && r.err == nil && forall(k, 0, len(r.heap.Buffers), rbufOK(r.heap.Buffers[k]) && rbufDyn(r.heap.Buffers[k])) && rheapSet(r.heap)
 //@   loop 3 invariant base: r.heap != nil && r.err == nil && (len(combine) > 0 || len(r.heap.Buffers) > 0)
-//@   loop 3 invariant heap-ok: forall(k, 0, len(r.heap.Buffers), rbufOK(r.heap.Buffers[k]))
-//@   loop 3 invariant gathered-ok: forall(j, 0, len(combine), rbufOK(combine[j]))
+//@   loop 3 invariant heap-ok: forall(k, 0, len(r.heap.Buffers), rbufOK(r.heap.Buffers[k]) && rbufDyn(r.heap.Buffers[k])) && rheapSet(r.heap)
+//@   loop 3 invariant gathered-ok: forall(j, 0, len(combine), rbufOK(combine[j]) && rbufDyn(combine[j]))
+//@   loop 3 invariant gathered-set: forall(a, 0, len(combine), forall(b, 0, len(combine), implies(a != b, combine[a] != combine[b]))) && forall(a, 0, len(combine), forall(k, 0, len(r.heap.Buffers), combine[a] != r.heap.Buffers[k]))
 //@   loop 3 invariant separate: allocated(r.heap.Buffers.arr) && (combine == nil || (fresh(combine) && combine.arr != r.heap.Buffers.arr))
 //@   loop 3 step one-pop-per-gathered-buffer: hpops == at_head(hpops) + 1 && len(combine) == at_head(len(combine)) + 1
 //@   loop 4 invariant base: r.heap != nil && r.err == nil
-//@   loop 4 invariant heap-ok: forall(k, 0, len(r.heap.Buffers), rbufOK(r.heap.Buffers[k]))
-//@   loop 4 invariant gathered-ok: forall(j, 0, len(combine), rbufOK(combine[j]))
+//@   loop 4 invariant heap-ok: forall(k, 0, len(r.heap.Buffers), rbufOK(r.heap.Buffers[k]) && rbufDyn(r.heap.Buffers[k])) && rheapSet(r.heap)
+//@   loop 4 invariant gathered-ok: forall(j, 0, len(combine), rbufOK(combine[j]) && rbufDyn(combine[j]))
+//@   loop 4 invariant gathered-set: forall(a, 0, len(combine), forall(b, 0, len(combine), implies(a != b, combine[a] != combine[b]))) && forall(a, 0, len(combine), forall(k, 0, len(r.heap.Buffers), combine[a] != r.heap.Buffers[k]))
 //@   loop 4 invariant separate: allocated(r.heap.Buffers.arr) && (combine == nil || (fresh(combine) && combine.arr != r.heap.Buffers.arr))
 //@   loop 5 invariant base: r.heap != nil && r.err == nil
-//@   loop 5 invariant heap-ok: forall(k, 0, len(r.heap.Buffers), rbufOK(r.heap.Buffers[k]))
-//@   loop 5 invariant gathered-ok: forall(j, 0, len(combine), rbufOK(combine[j]))
+//@   loop 5 invariant heap-ok: forall(k, 0, len(r.heap.Buffers), rbufOK(r.heap.Buffers[k]) && rbufDyn(r.heap.Buffers[k])) && rheapSet(r.heap)
+//@   loop 5 invariant gathered-ok: forall(j, 0, len(combine), rbufOK(combine[j])) && forall(j, range_idx, len(combine), rbufDyn(combine[j]))
+//@   loop 5 invariant gathered-set: forall(a, 0, len(combine), forall(b, 0, len(combine), implies(a != b, combine[a] != combine[b]))) && forall(a, range_idx, len(combine), forall(k, 0, len(r.heap.Buffers), combine[a] != r.heap.Buffers[k]))
 //@   loop 5 invariant separate: allocated(r.heap.Buffers.arr) && (combine == nil || (fresh(combine) && combine.arr != r.heap.Buffers.arr))
-//@   loop 5 step pushed-back-unless-exhausted: hpushes == at_head(hpushes) + 1 || (hpushes == at_head(hpushes) && range_coll[at_head(range_idx)].Len == 0)
+//@   loop 5 step pushed-back-exactly-when-rows-remain: (hpushes == at_head(hpushes) + 1 && rbufDyn(range_coll[at_head(range_idx)])) || (hpushes == at_head(hpushes) && range_coll[at_head(range_idx)].Len == 0)
 //@   loop 5 exit every-gathered-buffer-handled: range_idx == len(range_coll) || r.err != nil
